@@ -8,7 +8,7 @@ use symcore::*;
 
 pub fn instances(tier: &str) -> Vec<String> {
     let mut v: Vec<String> = ["exp_ln", "exp_laws", "sqrt", "polar", "trig", "trig_quot", "hyp", "hyp_quot", "bridge", "log"].iter().map(|s| s.to_string()).collect();
-    v.push("inv_closed_forms".into()); v.push("inv_asin".into()); v.push("inv_acos".into()); v.push("inv_right".into());
+    v.push("inv_closed_forms".into()); v.push("inv_asin".into()); v.push("inv_acos".into()); v.push("inv_right".into()); v.push("inv_right_atanh".into());
     let _ = tier; v.push("pow".into());
     v
 }
@@ -37,6 +37,29 @@ fn reciprocal(tag: &str, t: Cmplx, c: Cmplx) {
     let d = a * a + b * b;
     prove_closed("reciprocal step: u|c|^2 = Re c, v|c|^2 = -Im c, c != 0 imply (u+iv) c = 1",
         B::implies(B::and(vec![ne(d, z()), eq(u * d, a), eq(v * d, -b)]), B::and(vec![eq(u * a - v * b, one()), eq(u * b + v * a, z())])));
+}
+
+/// polynomial relations between the real-function values that occur in tanh(atanh z); t = ln r1 - ln r2, u = arg(1+z) - arg(1-z)
+fn atanh_relations(r1: Sym, r2: Sym, x: Sym, y: Sym, bch: Sym, bsh: Sym, ch: Sym, sh: Sym, c2: Sym, s2: Sym, c: Sym, s: Sym) -> Vec<(&'static str, B)> {
+    let two = Sym::lit(2.0);
+    vec![("r1 > 0", lt(z(), r1)), ("r2 > 0", lt(z(), r2)), ("r1^2 = |1+z|^2", eq(r1 * r1, (one() + x) * (one() + x) + y * y)), ("r2^2 = |1-z|^2", eq(r2 * r2, (one() - x) * (one() - x) + y * y)),
+        ("2 r1 r2 cosh t = r1^2 + r2^2", eq(two * r1 * r2 * bch, r1 * r1 + r2 * r2)), ("2 r1 r2 sinh t = r1^2 - r2^2", eq(two * r1 * r2 * bsh, r1 * r1 - r2 * r2)),
+        ("2 cosh^2(t/2) = 1 + cosh t", eq(two * ch * ch, one() + bch)), ("2 sinh^2(t/2) = cosh t - 1", eq(two * sh * sh, bch - one())), ("2 sinh(t/2) cosh(t/2) = sinh t", eq(two * sh * ch, bsh)), ("cosh(t/2) > 0", lt(z(), ch)),
+        ("r1 r2 cos u = (1+x)(1-x) - y^2", eq(r1 * r2 * c2, (one() + x) * (one() - x) - y * y)), ("r1 r2 sin u = 2y", eq(r1 * r2 * s2, two * y)),
+        ("2 cos^2(u/2) = 1 + cos u", eq(two * c * c, one() + c2)), ("2 sin^2(u/2) = 1 - cos u", eq(two * s * s, one() - c2)), ("2 sin(u/2) cos(u/2) = sin u", eq(two * s * c, s2))]
+}
+
+/// finer relations (one axiom instance each): difference formulas for t = ln r1 - ln r2 and u = arg(1+z) - arg(1-z), and the
+/// polar / exponential facts of the two logarithms.  f = [cos b1, sin b1, cos b2, sin b2, cosh a1, sinh a1, cosh a2, sinh a2]
+fn atanh_fine(r1: Sym, r2: Sym, x: Sym, y: Sym, bch: Sym, bsh: Sym, c2: Sym, s2: Sym, f: [Sym; 8]) -> Vec<(&'static str, B)> {
+    let two = Sym::lit(2.0);
+    let [c1, s1, cc2, ss2, ch1, sh1, ch2, sh2] = f;
+    vec![("r1 > 0 (fine)", lt(z(), r1)), ("r2 > 0 (fine)", lt(z(), r2)),
+        ("cos u = cos b1 cos b2 + sin b1 sin b2", eq(c2, c1 * cc2 + s1 * ss2)), ("sin u = sin b1 cos b2 - cos b1 sin b2", eq(s2, s1 * cc2 - c1 * ss2)),
+        ("r1 cos b1 = 1 + x", eq(r1 * c1, one() + x)), ("r1 sin b1 = y", eq(r1 * s1, y)), ("r2 cos b2 = 1 - x", eq(r2 * cc2, one() - x)), ("r2 sin b2 = -y", eq(r2 * ss2, -y)),
+        ("cosh t = cosh a1 cosh a2 - sinh a1 sinh a2", eq(bch, ch1 * ch2 - sh1 * sh2)), ("sinh t = sinh a1 cosh a2 - cosh a1 sinh a2", eq(bsh, sh1 * ch2 - ch1 * sh2)),
+        ("2 r1 sinh a1 = r1^2 - 1", eq(two * r1 * sh1, r1 * r1 - one())), ("2 r1 cosh a1 = r1^2 + 1", eq(two * r1 * ch1, r1 * r1 + one())),
+        ("2 r2 sinh a2 = r2^2 - 1", eq(two * r2 * sh2, r2 * r2 - one())), ("2 r2 cosh a2 = r2^2 + 1", eq(two * r2 * ch2, r2 * r2 + one()))]
 }
 
 pub fn body(inst: &str) {
@@ -228,6 +251,47 @@ pub fn body(inst: &str) {
               prove_closed("sin(asin z), cos(acos z) :: closed: s^2 = 1-z^2 implies u = s + iz != 0", cimp(vec![(sv * sv, cone - zq * zq)], vec![], nonzero(uu)));
               prove_closed("sin(asin z), cos(acos z) :: closed: 2i u F = u^2 - 1 implies F = z", cimp(vec![(sv * sv, cone - zq * zq), (i_unit * (fq * uu * two), uu * uu - one())], vec![nonzero(uu)], ceqb(fq, zq))); }
             control("inv_right control", eq(u.real, u.real + one()));
+        }
+        "inv_right_atanh" => {
+            // tanh(atanh z) = z for z != +-1, by the same kind of decomposition as inv_right:  w = (ln(1+z) - ln(1-z))/2,
+            // p = Re w, q = Im w.  Relations on the library's terms (axioms, z3), then closed lemmas over fresh reals.
+            let two = Sym::lit(2.0);
+            must_off_singularities("tanh(atanh z)", || { assume(nonzero(zc + cone)); assume(nonzero(cone - zc));
+                    let (l1, l2) = ((zc + one()).ln(), (cone - zc).ln()); let w = zc.atanh(); ((zc + one()).abs(), (cone - zc).abs(), l1, l2, w, w.sinh(), w.cosh()) }, |(r1, r2, l1, l2, w, sw, cw)| {
+                let wh = (l1 - l2) * Sym::lit(0.5);
+                prove_eq("tanh(atanh z) :: atanh z is (ln(1+z) - ln(1-z))/2 (real part)", w.real, wh.real); prove_eq("tanh(atanh z) :: atanh z is (ln(1+z) - ln(1-z))/2 (imaginary part)", w.imag, wh.imag);
+                let (t, u2) = (l1.real - l2.real, l1.imag - l2.imag);
+                let (sh, ch, c, s) = (w.real.sinh(), w.real.cosh(), w.imag.cos(), w.imag.sin());
+                prove_eq("tanh(atanh z) :: sinh w real part", sw.real, sh * c); prove_eq("tanh(atanh z) :: sinh w imaginary part", sw.imag, ch * s);
+                prove_eq("tanh(atanh z) :: cosh w real part", cw.real, ch * c); prove_eq("tanh(atanh z) :: cosh w imaginary part", cw.imag, sh * s);
+                let (x, y) = (zc.real, zc.imag);
+                let (bch, bsh, c2, s2) = (t.cosh(), t.sinh(), u2.cos(), u2.sin());
+                // the four product relations are beyond nlsat in one step: they follow (closed lemmas below) from finer relations
+                let skip = ["2 r1 r2 cosh t = r1^2 + r2^2", "2 r1 r2 sinh t = r1^2 - r2^2", "r1 r2 cos u = (1+x)(1-x) - y^2", "r1 r2 sin u = 2y"];
+                for (nm, b) in atanh_relations(r1, r2, x, y, bch, bsh, ch, sh, c2, s2, c, s) { if !skip.contains(&nm) { prove(&format!("tanh(atanh z) :: {}", nm), b); } }
+                let f = [l1.imag.cos(), l1.imag.sin(), l2.imag.cos(), l2.imag.sin(), l1.real.cosh(), l1.real.sinh(), l2.real.cosh(), l2.real.sinh()];
+                for (nm, b) in atanh_fine(r1, r2, x, y, bch, bsh, c2, s2, f) { prove(&format!("tanh(atanh z) :: {}", nm), b); }
+            });
+            {
+                let v = |n: &str| Sym::var(n);
+                let (x, y, r1, r2, bch, bsh, c2, s2) = (v("X"), v("Y"), v("R1"), v("R2"), v("BCH"), v("BSH"), v("C2"), v("S2"));
+                let f = [v("C1q"), v("S1q"), v("C2q"), v("S2q"), v("CH1q"), v("SH1q"), v("CH2q"), v("SH2q")];
+                let fine: Vec<B> = atanh_fine(r1, r2, x, y, bch, bsh, c2, s2, f).into_iter().map(|(_, b)| b).collect();
+                let two = Sym::lit(2.0);
+                prove_closed("tanh(atanh z) :: closed: fine relations imply 2 r1 r2 cosh t = r1^2 + r2^2", B::implies(B::and(fine.clone()), eq(two * r1 * r2 * bch, r1 * r1 + r2 * r2)));
+                prove_closed("tanh(atanh z) :: closed: fine relations imply 2 r1 r2 sinh t = r1^2 - r2^2", B::implies(B::and(fine.clone()), eq(two * r1 * r2 * bsh, r1 * r1 - r2 * r2)));
+                prove_closed("tanh(atanh z) :: closed: fine relations imply r1 r2 cos u = (1+x)(1-x) - y^2", B::implies(B::and(fine.clone()), eq(r1 * r2 * c2, (one() + x) * (one() - x) - y * y)));
+                prove_closed("tanh(atanh z) :: closed: fine relations imply r1 r2 sin u = 2y", B::implies(B::and(fine), eq(r1 * r2 * s2, two * y)));
+            }
+            let v = |n: &str| Sym::var(n);
+            let (x, y, r1, r2, bch, bsh, ch, sh, c2, s2, c, s) = (v("X"), v("Y"), v("R1"), v("R2"), v("BCH"), v("BSH"), v("CH"), v("SH"), v("C2"), v("S2"), v("CO"), v("SI"));
+            let hyp: Vec<B> = atanh_relations(r1, r2, x, y, bch, bsh, ch, sh, c2, s2, c, s).into_iter().map(|(_, b)| b).collect();
+            prove_closed("tanh(atanh z) :: closed: the relations imply sinh w = z cosh w", B::implies(B::and(hyp.clone()), B::and(vec![eq(sh * c, x * (ch * c) - y * (sh * s)), eq(ch * s, x * (sh * s) + y * (ch * c))])));
+            prove_closed("tanh(atanh z) :: closed: the relations imply cosh w != 0", B::implies(B::and(hyp), B::or(vec![ne(ch * c, z()), ne(sh * s, z())])));
+            let (tq, kq, zq) = (cvar("T"), cvar("K"), cvar("Z"));
+            prove_closed("tanh(atanh z) :: closed: t k = z k and k != 0 imply t = z", B::implies(B::and(vec![eq((tq * kq).real, (zq * kq).real), eq((tq * kq).imag, (zq * kq).imag), nonzero(kq)]), B::and(vec![eq(tq.real, zq.real), eq(tq.imag, zq.imag)])));
+            let _ = two;
+            control("inv_right_atanh control", eq(zc.real, zc.real + one()));
         }
         "inv_acosh" => {
             must("acosh", || { let a = zc.acosh(); a }, |a| { prove("Re acosh z >= 0 (principal branch)", le(z(), a.real)); prove("Im acosh z in (-pi, pi]", B::and(vec![lt(-PI, a.imag), le(a.imag, PI)])); });
